@@ -410,6 +410,9 @@ func genericOp(t *rapid.T, b, other []byte) ([]byte, string) {
 // synthRefinementExt builds an extension item holding a refinement map with
 // drawn (possibly contradictory or ill-typed) entries.
 func synthRefinementExt(t *rapid.T) []byte {
+	if rapid.IntRange(0, 2).Draw(t, "coherent") == 0 {
+		return coherentRefinementExt(t, -1)
+	}
 	n := rapid.IntRange(0, 4).Draw(t, "entries")
 	var body []byte
 	declared := n
@@ -470,6 +473,91 @@ func synthRefinementExt(t *rapid.T) []byte {
 		typ = rapid.Byte().Draw(t, "exttype")
 	}
 	return append(mpMakeHeader('e', uint32(len(body)), false, typ), body...)
+}
+
+// hostile magnitudes for the integers of a refinement map (length bounds): the
+// decoder turns them into refinements, and a refinement can make the library
+// materialise a collection of that length.
+var hostileRefInts = []uint64{0, 1, 2, 3, 1 << 12, 1 << 16, 1 << 20, 1<<31 - 1, 1<<32 - 1, 1 << 40, 1 << 62, 1<<63 - 1}
+
+func mpUint(n uint64) []byte {
+	switch {
+	case n < 128:
+		return []byte{byte(n)}
+	case n < 1<<16:
+		return []byte{0xcd, byte(n >> 8), byte(n)}
+	case n < 1<<32:
+		return []byte{0xce, byte(n >> 24), byte(n >> 16), byte(n >> 8), byte(n)}
+	}
+	return []byte{0xcf, byte(n >> 56), byte(n >> 48), byte(n >> 40), byte(n >> 32), byte(n >> 24), byte(n >> 16), byte(n >> 8), byte(n)}
+}
+
+// coherentRefinementExt builds a refinement map that is well-typed for one
+// kind of target (collection, number or string) - keys in the encoder's order,
+// each at most once - but with hostile magnitudes: length bounds up to
+// MaxInt64 that may coincide (an exact length), numeric bounds that may
+// coincide or be infinite, a long prefix. Unlike the random maps of
+// synthRefinementExt these survive the decoder's own validation and reach the
+// refinement builder.
+func coherentRefinementExt(t *rapid.T, kind int) []byte {
+	var entries [][]byte
+	switch rapid.IntRange(0, 2).Draw(t, "nullness") {
+	case 1:
+		entries = append(entries, []byte{0x01, 0xc2}) // not null
+	case 2:
+		entries = append(entries, []byte{0x01, 0xc3})
+	}
+	if kind < 0 {
+		kind = rapid.IntRange(0, 3).Draw(t, "target")
+	}
+	switch kind {
+	case 0, 1: // collection length bounds (keys 5, 6)
+		lo := rapid.SampledFrom(hostileRefInts).Draw(t, "lo")
+		hi := lo
+		if rapid.IntRange(0, 2).Draw(t, "exact") != 0 {
+			hi = rapid.SampledFrom(hostileRefInts).Draw(t, "hi")
+		}
+		which := rapid.IntRange(0, 3).Draw(t, "which")
+		if which != 1 {
+			entries = append(entries, append([]byte{0x05}, mpUint(lo)...))
+		}
+		if which != 2 {
+			entries = append(entries, append([]byte{0x06}, mpUint(hi)...))
+		}
+	case 2: // numeric bounds (keys 3, 4)
+		nums := [][]byte{{0x00}, {0x05}, {0xff}, mpUint(1 << 40), {0xcb, 0x7f, 0xf0, 0, 0, 0, 0, 0, 0}, {0xcb, 0xff, 0xf0, 0, 0, 0, 0, 0, 0}, append([]byte{0xa3}, "0.1"...), append([]byte{0xa6}, "1e9999"...)}
+		lo := rapid.SampledFrom(nums).Draw(t, "nlo")
+		hi := lo
+		if rapid.Bool().Draw(t, "same") == false {
+			hi = rapid.SampledFrom(nums).Draw(t, "nhi")
+		}
+		which := rapid.IntRange(0, 3).Draw(t, "nwhich")
+		if which != 1 {
+			e := append([]byte{0x03, 0x92}, lo...)
+			entries = append(entries, append(e, 0xc2+byte(rapid.IntRange(0, 1).Draw(t, "loinc"))))
+		}
+		if which != 2 {
+			e := append([]byte{0x04, 0x92}, hi...)
+			entries = append(entries, append(e, 0xc2+byte(rapid.IntRange(0, 1).Draw(t, "hiinc"))))
+		}
+	default: // string prefix (key 2)
+		s := rapid.SampledFrom([]string{"", "a", "e\u0301", "\u1100", "ab\u0323"}).Draw(t, "pfx")
+		rep := rapid.SampledFrom([]int{1, 1, 2, 100, 300}).Draw(t, "pfxrep")
+		var p []byte
+		for i := 0; i < rep; i++ {
+			p = append(p, s...)
+		}
+		e := append([]byte{0x02}, mpMakeHeader('s', uint32(len(p)), false, 0)...)
+		entries = append(entries, append(e, p...))
+	}
+	if rapid.IntRange(0, 3).Draw(t, "shuffle") == 0 && len(entries) > 1 {
+		entries[0], entries[len(entries)-1] = entries[len(entries)-1], entries[0]
+	}
+	body := []byte{0x80 | byte(len(entries))}
+	for _, e := range entries {
+		body = append(body, e...)
+	}
+	return append(mpMakeHeader('e', uint32(len(body)), false, 0x0c), body...)
 }
 
 // msgpackOp applies one MessagePack-aware mutation.
